@@ -270,7 +270,15 @@ def decode_native(j):
 
 NAME_POOL = ["a", "b", "c", "ab", "abc", "a1", "name", "x", "y", "0", "12", "é", "名前", "a.b", "a+", "(x)", "k|v",
              "$", "^", "a b", "A", "zz", "year", "s", "m", "d", "l", "n-1", "q?", "*", "[z]", "a\\", "ß", "٣"]
-SEP_POOL = ["_", "_", "_", "_", ".", "|", "-", "/", ":", "__", "::", " ", "$", "(", "*", "+", "\x00", "\\", "->", "é", "_-"]
+SEP_POOL = ["_", "_", "_", "_", ".", "|", "-", "/", ":", "__", "::", " ", "$", "(", "*", "+", "\x00", "\\", "->", "é", "_-",
+            "1_", "7:"]      # separators that START with a decimal digit: the index regex must backtrack (oracle only, see digit_sep)
+
+
+def digit_sep(sep):
+    """Separators beginning with a decimal digit are outside the Lean model of the List index recogniser
+    (the model reads the maximal digit run; the regex backtracks) — such cases run through the real code
+    and the oracle only."""
+    return bool(sep) and unicodedata.category(sep[0]) == "Nd"
 TEXTS = ["", "x", " x ", "abc", "5", "-3", " 7 ", "007", "1_0", "true", "on", "0", "off", "a", "b", "2020-01-02", "01:02:03",
          "2020-01-02 03:04:05", "2020-13-45", "1.5", "1e3", "nan", "zzz", "a,b", "a,,b", " , ", "٣", "１２", "\n", " ", "é",
          "x" * 40, "0x10", "+4", "--1", "9" * 30, "2", "1"]
